@@ -3,7 +3,7 @@
 concurrent_part: deadlocks / panics over the schedule enumeration of C06 (overlay scheduler).
 SEQUENTIAL_PARTS: callables fn(ctx) run after it (adversarial sequential arguments, totality
 streams) - appended by the module that owns the sequential part."""
-from ..props import CHECKS
+from ..props import CHECKS, REPLAYERS
 from .. import conccheck
 
 KINDS = ("deadlock", "panic")
@@ -18,7 +18,7 @@ def concurrent_part(ctx):
         return
     for (i, c, m, o) in mm[:2]:
         ctx.violation("lockprog", "the acquire/release sequence of a call run alone differs from its entry in the lock-program table of Conc/LockProg.v (%d entries differ): the C07_refuted_orefa_* witnesses no longer speak about this code" % len(mm),
-                      {"stream": {"name": "lockprog", "harness": "lockprog", "driver": "lockprog", "overlay": True}, "engine": "conc-lockprog", "case": c, "model": m, "observed": o})
+                      {"conc_stream": {"name": "lockprog", "harness": "lockprog", "driver": "lockprog", "overlay": True}, "engine": "conc-lockprog", "case": c, "model": m, "observed": o})
     conccheck.run(ctx, KINDS)
 
 
@@ -40,3 +40,4 @@ def replay_C07(ctx, obj):
 
 
 CHECKS["C07"] = check_C07
+REPLAYERS["C07"] = replay_C07
